@@ -249,6 +249,16 @@ def w_star : RangeAst :=
 theorem npm_star_collapse_refuted : ¬ C03_npm := fun h =>
   not_agree (by decide +kernel) (h w_star ⟨3, 1, 2, [.alnum "a"]⟩ (by decide)).1
 
+/-- F-C03-or-merge-pre: `>=1.0.0-a <=2.0.0-a || >=2.0.0-a <3.0.0-a` does not match `2.0.0-b`: `canon`
+merges the two alternatives' spans `[1.0.0-a, 2.0.0-a]`, `[2.0.0-a, 3.0.0-a)` (they meet at `2.0.0-a`
+and all four bounds carry the same tag) into `[1.0.0-a, 3.0.0-a)`, which has no bound with the
+candidate's numbers left; node admits `2.0.0-b` through `>=2.0.0-a`. -/
+def w_ormerge : RangeAst :=
+  [.comps [⟨.ge, ⟨[.n 1, .n 0, .n 0], [.alnum "a"]⟩⟩, ⟨.le, ⟨[.n 2, .n 0, .n 0], [.alnum "a"]⟩⟩],
+   .comps [⟨.ge, ⟨[.n 2, .n 0, .n 0], [.alnum "a"]⟩⟩, ⟨.lt, ⟨[.n 3, .n 0, .n 0], [.alnum "a"]⟩⟩]]
+theorem npm_or_merge_pre_refuted : ¬ C03_npm := fun h =>
+  not_agree (by decide +kernel) (h w_ormerge ⟨2, 0, 0, [.alnum "b"]⟩ (by decide)).1
+
 /-- F-C03-cargo-pre-partial: Cargo `~3,>3.1.2-10` matches `3.1.2-a`; the crate does not. -/
 def w_cargopre : RangeAst := [.comps [⟨.tilde, ⟨[.n 3], []⟩⟩, ⟨.gt, ⟨[.n 3, .n 1, .n 2], [.num 10]⟩⟩]]
 theorem cargo_pre_partial_refuted : ¬ C03_cargo := fun h =>
@@ -275,6 +285,7 @@ example : NpmRange.classes w_lt0pre ⟨0, 0, 0, [.alnum "a"]⟩ = ["F-C03-lt0pre
     NpmRange.classes w_midwild ⟨1, 0, 0, []⟩ = ["F-C03-lt-midwild"] ∧
     NpmRange.classes w_ltpartial ⟨1, 2, 0, [.alnum "a"]⟩ = ["F-C03-lt-partial-pre"] ∧
     NpmRange.classes w_star ⟨3, 1, 2, [.alnum "a"]⟩ = ["F-C03-star-collapse"] ∧
+    NpmRange.classes w_ormerge ⟨2, 0, 0, [.alnum "b"]⟩ = ["F-C03-or-merge-pre"] ∧
     CargoReq.classes w_cargopre ⟨3, 1, 2, [.alnum "a"]⟩ = ["F-C03-cargo-pre-partial"] ∧
     Pep440Spec.classes w_nepre0 = ["F-C03-ne-pre0"] ∧
     MavenRange.classes w_mvnneg { nums := [0], qual := .rc, qn := 1 } = ["F-C03-mvn-neg"] := by
@@ -425,7 +436,8 @@ theorem npm_classes_nil (c : Comparator) (hc : L1Dom c) (x : SemVerAst) (hx : x.
   simp only at hsig
   cases hs <;>
     simp [NpmRange.classes, NpmRange.pre000, NpmRange.gtSuccPre, NpmRange.hyphenBelow, NpmRange.ltMidWild,
-      NpmRange.ltPartialPre, NpmRange.starCollapse, NpmRange.allComps, NpmRange.signedIdent, hsig]
+      NpmRange.ltPartialPre, NpmRange.starCollapse, NpmRange.allComps, NpmRange.signedIdent, NpmRange.orMergePre,
+      NpmRange.pairsAny, hsig]
 
 /-- The hypotheses of the L1 theorems lie outside every Cargo finding class. -/
 theorem cargo_classes_nil (c : Comparator) (x : SemVerAst) (hx : x.pre = [])
@@ -495,9 +507,10 @@ example : parse .pypi (renderPepVer { rel := [1, 2] }) = .ok (embedPepRel [1, 2]
   refine ⟨?_, ?_, ?_, ?_, ?_⟩ <;> decide +kernel
 
 /-- The rendered witnesses are the requirement strings of `props/C03.known.json`. -/
-example : renderNpm w_star = bs "x || >2.1.3 <=3.1.2-a" ∧ renderNpm w_hypheninv = bs "2.2.2 - 2.0 || <=0.3" ∧
+example : renderNpm w_star = bs "x || >2.1.3 <=3.1.2-a" ∧
+    renderNpm w_ormerge = bs ">=1.0.0-a <=2.0.0-a || >=2.0.0-a <3.0.0-a" ∧ renderNpm w_hypheninv = bs "2.2.2 - 2.0 || <=0.3" ∧
     renderCargo w_cargopre = bs "~3,>3.1.2-10" ∧ renderPepSpec w_nepre0 = bs ">=2,!=0rc1" ∧
     renderMvn w_mvnneg = bs "(,1.0]" ∧ renderMvnVer { nums := [0], qual := .rc, qn := 1 } = bs "0-rc-1" := by
-  refine ⟨?_, ?_, ?_, ?_, ?_, ?_⟩ <;> decide +kernel
+  refine ⟨?_, ?_, ?_, ?_, ?_, ?_, ?_⟩ <;> decide +kernel
 
 end DepsDev.Props.C03
